@@ -71,3 +71,12 @@ Fixpoint py_map_og {A B} (f : A -> outcome B) (l : list A) : outcome (list B) :=
   match l with [] => Ok [] | x :: r => do y <- f x; do ys <- py_map_og f r; Ok (y :: ys) end.
 (* a, b, c = <sequence>: ValueError unless it has exactly three items *)
 Definition py_triple_of_list (l : list Z) : outcome (Z * Z * Z) := match l with [a; b; c] => Ok (a, b, c) | _ => Raise ValueError end.
+
+(* ---- iter_unique_ips (unit pysrc_uniq_gen.v) ---- *)
+(* `for ip in cidr` for an IPNetwork object (IPListMixin.__iter__, property C10; not translated here): IPAddress(first) .. IPAddress(last),
+   as (version, value) pairs; `for x in l: for y in x: yield y` = these lists one after the other *)
+Definition py_net_addrs (n : net) : list (Z * Z) :=
+  let first := net_first (width (nver n)) (nval n) (nplen n) in
+  let last := net_last (width (nver n)) (nval n) (nplen n) in
+  map (fun i => (nver n, first + Z.of_nat i)) (seq 0 (Z.to_nat (last - first + 1))).
+Definition py_flat_addrs (l : list net) : list (Z * Z) := flat_map py_net_addrs l.
